@@ -85,6 +85,36 @@ def gen50(rng):
     return mb(f)
 
 
+def _mach2cas_kt(mach, alt_ft):
+    """ISA Mach -> CAS (generator only; the oracle uses its own computation)"""
+    h = alt_ft * 0.3048
+    T = max(288.15 - 0.0065 * h, 216.65)
+    p = 101325.0 * (T / 288.15) ** 5.2558797 if h <= 11000 else 22632.0 * 2.718281828459045 ** (-(h - 11000) * 9.80665 / (287.05287 * 216.65))
+    qc = p * ((1 + 0.2 * mach * mach) ** 3.5 - 1)
+    return 340.293988 * (5 * ((qc / 101325.0 + 1) ** (2 / 7.0) - 1)) ** 0.5 / 0.514444
+
+
+def gen5060(rng, alt_ft=None):
+    """payload that is status-consistent and plausible under BOTH the BDS 5,0 and the BDS 6,0 layout, with track, ground speed,
+    heading and IAS and/or Mach present (1-based bit numbers): the decidable case of is50or60"""
+    f = [(1, 1, 1), (2, 1, rng.randrange(2)), (3, 9, rng.choice([rng.randrange(0, 200), rng.randrange(330, 512)])),
+         (12, 1, 1)]
+    gs = rng.randrange(40, 250)
+    if rng.random() < 0.7:
+        ias = rng.randrange(60, 500)
+        if alt_ft is not None and rng.random() < 0.8:
+            # IAS consistent (within ~10 kt) with the Mach number gs*0.004 at the reference altitude
+            ias = max(1, min(500, int(round(_mach2cas_kt(gs * 0.004, alt_ft))) + rng.randrange(-10, 11)))
+        f += [(13, 1, 1), (14, 10, ias)]      # IAS status = track sign
+    f += [(24, 1, 1), (25, 10, gs)]                               # GS <= 600 kt and Mach <= 1
+    if rng.random() < 0.5:
+        n = rng.randrange(-150, 150)
+        f += [(35, 1, 1), (36, 1, 1 if n < 0 else 0), (37, 9, n & 0x1FF)]
+    if rng.random() < 0.6:
+        f += [(46, 1, 1), (47, 10, max(0, min(187, gs + rng.randrange(-90, 91))))]
+    return mb(f)
+
+
 def gen60(rng, with_ias_mach=True):
     f = []
     if rng.random() < 0.8:
@@ -101,15 +131,45 @@ def gen60(rng, with_ias_mach=True):
     return mb(f)
 
 
-GENS = {"BDS10": gen10, "BDS17": gen17, "BDS20": gen20, "BDS30": gen30, "BDS40": gen40, "BDS50": gen50, "BDS60": gen60}
+def gen44(rng):
+    """BDS 4,4 meteorological routine report: source 1-4 | wind status, speed (kt), direction | temperature sign + 10 bits |
+    pressure status + 11 bits | turbulence status + 2 bits | humidity status + 6 bits; temperature within [-80, +60] C in the
+    0.25 C reading (hence in both readings the decoder tries)"""
+    n = rng.randrange(-320, 241)
+    f = [(1, 4, rng.randrange(0, 5)), (24, 1, 1 if n < 0 else 0), (25, 10, n & 0x3FF)]
+    if rng.random() < 0.8:
+        f += [(5, 1, 1), (6, 9, rng.randrange(0, 251)), (15, 9, rng.getrandbits(9))]
+    f += sfield(rng, 35, 36, 46) + sfield(rng, 47, 48, 49) + sfield(rng, 50, 51, 56)
+    return mb(f)
+
+
+def gen45(rng):
+    """BDS 4,5 meteorological hazard report: five 2-bit hazards with status, temperature (status, sign, 9 bits of 0.25 C,
+    within [-80, +60]), pressure (11 bits), radio height (12 bits), bits 52-56 reserved zero"""
+    f = []
+    for st in (1, 4, 7, 10, 13):
+        f += sfield(rng, st, st + 1, st + 2)
+    if rng.random() < 0.8:
+        n = rng.randrange(-320, 241)
+        f += [(16, 1, 1), (17, 1, 1 if n < 0 else 0), (18, 9, n & 0x1FF)]
+    f += sfield(rng, 27, 28, 38) + sfield(rng, 39, 40, 51)
+    return mb(f)
+
+
+GENS = {"BDS10": gen10, "BDS17": gen17, "BDS20": gen20, "BDS30": gen30, "BDS40": gen40, "BDS44": gen44, "BDS45": gen45,
+        "BDS50": gen50, "BDS60": gen60}
+MRAR_ONLY = ("BDS44", "BDS45")
+STATUS53 = [(1, 3, 12), (13, 14, 23), (24, 25, 33), (34, 35, 46), (47, 49, 56)]
 
 # status rules (status bit, msb, lsb) per register as documented (Doc 9871: a field whose status bit is 0 is all zeros)
 STATUS = {
     "BDS40": [(1, 2, 13), (14, 15, 26), (27, 28, 39), (48, 49, 51), (54, 55, 56)],
+    "BDS44": [(5, 6, 23), (35, 36, 46), (47, 48, 49), (50, 51, 56)],
+    "BDS45": [(1, 2, 3), (4, 5, 6), (7, 8, 9), (10, 11, 12), (13, 14, 15), (16, 17, 26), (27, 28, 38), (39, 40, 51)],
     "BDS50": [(1, 2, 11), (12, 13, 23), (24, 25, 34), (35, 36, 45), (46, 47, 56)],
     "BDS60": [(1, 2, 12), (13, 14, 23), (24, 25, 34), (35, 36, 45), (46, 47, 56)],
 }
-RESERVED = {"BDS40": [(40, 47), (52, 53)], "BDS10": [(10, 14)], "BDS17": [(25, 56)]}
+RESERVED = {"BDS40": [(40, 47), (52, 53)], "BDS10": [(10, 14)], "BDS17": [(25, 56)], "BDS45": [(52, 56)]}
 
 
 def pred_contains(real_out, reg):
@@ -149,8 +209,6 @@ def p_is50or60(m, spd_ref, trk_ref, alt_ref):
         return "ok" if r is None else "expected None, got %r" % (r,)
     if r not in ("BDS50", "BDS60", "BDS50,BDS60"):
         return "bad label %r" % (r,)
-    if r == "BDS50,BDS60":
-        return "ok"
     # independent distance computation
     def vec(v, ang):
         return np.array([v * np.sin(np.radians(ang)), v * np.cos(np.radians(ang))])
@@ -158,9 +216,11 @@ def p_is50or60(m, spd_ref, trk_ref, alt_ref):
     h50, v50 = bds50.trk50(m), bds50.gs50(m)
     h60, m60, i60 = bds60.hdg60(m), bds60.mach60(m), bds60.ias60(m)
     if m60 is not None and i60 is not None and abs(i60 - aero.mach2cas(m60, alt_ref * aero.ft) / aero.kts) > 20:
+        CLASSES["inconsistent60"] = CLASSES.get("inconsistent60", 0) + 1
         return "ok" if r == "BDS50" else "IAS/Mach inconsistent with altitude: expected BDS50, got %r" % (r,)
     if None in (h50, v50, h60) or (m60 is None and i60 is None):
-        return "undecidable input must give both labels, got %r" % (r,)
+        CLASSES["undecidable"] = CLASSES.get("undecidable", 0) + 1
+        return "ok" if r == "BDS50,BDS60" else "undecidable input must give both labels, got %r" % (r,)
     d50 = np.linalg.norm(vec(v50 * aero.kts, h50) - ref)
     ds = []
     if m60 is not None:
@@ -168,10 +228,15 @@ def p_is50or60(m, spd_ref, trk_ref, alt_ref):
     if i60 is not None:
         ds.append(np.linalg.norm(vec(aero.cas2tas(i60 * aero.kts, alt_ref * aero.ft), h60) - ref))
     d60 = min(ds)
+    CLASSES["decided"] = CLASSES.get("decided", 0) + 1
     if abs(d50 - d60) < 1e-6:
         return "ok"
+    # both interpretations are available and their distances differ: exactly the closer one must be named
     want = "BDS50" if d50 < d60 else "BDS60"
     return "ok" if r == want else "closest is %s (d50=%.3f d60=%.3f), got %r" % (want, d50, d60, r)
+
+
+CLASSES = {}
 
 
 def k_roll_sign(rec):
@@ -182,9 +247,77 @@ def k_roll_sign(rec):
 KNOWN = {}
 
 
+ISFN = {r: ("is" + r[3:], "pyModeS.decoder.bds.bds%s.is%s" % (r[3:], r[3:])) for r in
+        ("BDS10", "BDS17", "BDS20", "BDS30", "BDS40", "BDS44", "BDS45", "BDS50", "BDS53", "BDS60")}
+
+
+def neighbourhood(rng, ctx):
+    """every single-bit neighbour of valid (and of sparse, partly-valid) payloads of each register, and every value of every
+    8..12-bit window ending at each field boundary: model and real code must agree on isXX / infer everywhere, so a rule whose
+    bit range or threshold is off by one is exposed whichever way it moved"""
+    for reg, g in list(GENS.items()) + [("BDS53", None)]:
+        op, path = ISFN[reg]
+        for _ in range(ctx.n(6, 40)):
+            if g is None:
+                base = [b if rng.random() < 0.3 else 0 for b in spec.background(rng, 56, "rand")]
+            else:
+                base = g(rng)
+                if rng.random() < 0.5:
+                    # switch a random subset of 8-bit windows off entirely (status and value zero)
+                    for k in range(0, 56, 8):
+                        if rng.random() < 0.4:
+                            base[k:k + 8] = [0] * 8
+            for bit in range(56):
+                bits = list(base)
+                bits[bit] ^= 1
+                if not any(bits):
+                    continue
+                m = frame(rng, bits, df=21)
+                yield dict(op="%s %s" % (op, m), real=(path, [m]), tag="nbhd-" + reg, trivial=True)
+                if reg != "BDS53" and bit % 4 == 0:
+                    yield dict(op="infer1 " + m, real=("pyModeS.bds.infer", [m, True]), tag="nbhd-infer", trivial=True)
+        # one field switched off (status 0, value 0), every single bit flipped: a status rule whose range is off by one shows
+        for (st, msb, lsb) in STATUS.get(reg, []) + (STATUS53 if reg == "BDS53" else []):
+            for _ in range(ctx.n(1, 4)):
+                base = g(rng) if g is not None else [b if rng.random() < 0.2 else 0 for b in spec.background(rng, 56, "rand")]
+                base[st - 1] = 0
+                for k in range(msb, lsb + 1):
+                    base[k - 1] = 0
+                for bit in range(56):
+                    bits = list(base)
+                    bits[bit] ^= 1
+                    if not any(bits):
+                        continue
+                    m = frame(rng, bits, df=21)
+                    yield dict(op="%s %s" % (op, m), real=(path, [m]), tag="nbhd-off-" + reg, trivial=True)
+        # field-aligned sweeps: every raw value of every status-guarded field (status on), rest of the payload valid
+        for (st, msb, lsb) in STATUS.get(reg, []) + (STATUS53 if reg == "BDS53" else []):
+            w = lsb - msb + 1
+            base = g(rng) if g is not None else [0] * 56
+            base[st - 1] = 1
+            for v in range(0, 1 << w, 1 if (w <= 10 or ctx.thorough) else 3):
+                bits = list(base)
+                bits[msb - 1:lsb] = spec.bits_of(v, w)
+                m = frame(rng, bits, df=21)
+                yield dict(op="%s %s" % (op, m), real=(path, [m]), tag="field-sweep-" + reg, trivial=True)
+        # value sweeps: all values of the 12-bit window starting at every 4th bit, everything else from a valid payload
+        for start in range(0, 56, 4):
+            base = g(rng) if g is not None else [0] * 56
+            w = min(12, 56 - start)
+            vals = range(1 << w) if ctx.thorough else sorted(set(list(range(0, 1 << w, 7)) + [v for c in (0, 48, 60, 80, 187, 250, 284, 300, 320, 500, 512, 600, 1 << (w - 1)) for v in (c - 1, c, c + 1) if 0 <= v < (1 << w)]))
+            for v in vals:
+                bits = list(base)
+                bits[start:start + w] = spec.bits_of(v, w)
+                if not any(bits):
+                    continue
+                m = frame(rng, bits, df=21)
+                yield dict(op="%s %s" % (op, m), real=(path, [m]), tag="sweep-" + reg, trivial=True)
+
+
 def cases(ctx):
     rng = ctx.rng
     I = "pyModeS.bds.infer"
+    yield from neighbourhood(rng, ctx)
     # --- totality, EMPTY, DF17 by TC
     for df in (17, 18, 20, 21, 4, 0, 11):
         m = frame(rng, [0] * 56, df=df)
@@ -214,7 +347,11 @@ def cases(ctx):
             else:
                 m = frame(rng, bits)
             for mrar in (False, True):
+                if reg in MRAR_ONLY and not mrar:
+                    yield dict(op="infer0 " + m, real=(I, [m, False]), pred=["pred_excludes", reg], tag="mrar-off-" + reg)
+                    continue
                 yield dict(op="infer%d %s" % (mrar, m), real=(I, [m, mrar]), pred=["pred_contains", reg], tag="complete-" + reg)
+            yield dict(op="%s %s" % (ISFN[reg][0], m), real=(ISFN[reg][1], [m]), expect="True", tag="complete-is-" + reg)
             yield dict(op=None, real=("h:props.C12.consistent", [m, rng.random() < 0.5]), expect="ok", tag="consistent")
     # --- soundness: violate one status rule / reserved bit of an otherwise valid payload
     for reg, rules in STATUS.items():
@@ -227,7 +364,10 @@ def cases(ctx):
                         bits[k - 1] = 0
                     bits[bit - 1] = 1
                     m = frame(rng, bits, df=21)
-                    yield dict(op="infer0 " + m, real=(I, [m]), pred=["pred_excludes", reg], tag="sound-status-" + reg,
+                    # BDS 4,4 / 4,5 are only candidates with mrar=True
+                    yield dict(op="infer1 " + m, real=(I, [m, True]), pred=["pred_excludes", reg], tag="sound-status-" + reg,
+                               info=dict(rule=(reg, st, msb, lsb), bit=bit))
+                    yield dict(op="%s %s" % (ISFN[reg][0], m), real=(ISFN[reg][1], [m]), expect="False", tag="sound-status-is-" + reg,
                                info=dict(rule=(reg, st, msb, lsb), bit=bit))
     for reg, spans in RESERVED.items():
         for (a, b_) in spans:
@@ -236,7 +376,8 @@ def cases(ctx):
                     bits = GENS[reg](rng)
                     bits[bit - 1] = 1
                     m = frame(rng, bits, df=21)
-                    yield dict(op="infer0 " + m, real=(I, [m]), pred=["pred_excludes", reg], tag="sound-reserved-" + reg)
+                    yield dict(op="infer1 " + m, real=(I, [m, True]), pred=["pred_excludes", reg], tag="sound-reserved-" + reg)
+                    yield dict(op="%s %s" % (ISFN[reg][0], m), real=(ISFN[reg][1], [m]), expect="False", tag="sound-reserved-is-" + reg)
     # --- thresholds +- 1 LSB (BDS50 GS/TAS 600 kt = 300 LSB, roll 50 deg = 284.4 LSB, BDS60 IAS 500, Mach 1 = 250, VR 6000 = 187.5)
     for n, inside in ((300, True), (301, False)):
         m = frame(rng, mb([(24, 1, 1), (25, 10, n), (46, 1, 1), (47, 10, n)]), df=21)
@@ -257,6 +398,50 @@ def cases(ctx):
         for n, inside in ((187, True), (188, False), (-187, True), (-188, False)):
             m = frame(rng, mb([(st, 1, 1), (st + 1, 1, 1 if n < 0 else 0), (st + 2, 9, n & 0x1FF)]), df=21)
             yield dict(op="is60 " + m, real=("pyModeS.commb.is60", [m]), expect=str(inside), tag="thr-vr60")
+    # BDS 3,0: threat-type / ARA field values 48..127 are reserved (ACAS III); BDS 4,4: source > 4 reserved, wind <= 250 kt;
+    # BDS 4,5: temperature within [-80, +60] C (0.25 C steps)
+    for v in range(128):
+        bits = gen30(rng)
+        spec.put(bits, 15, 7, v)
+        m = frame(rng, bits, df=21)
+        yield dict(op="is30 " + m, real=(ISFN["BDS30"][1], [m]), expect=str(v < 48), tag="thr-bds30")
+        yield dict(op="infer1 " + m, real=(I, [m, True]), pred=["pred_contains" if v < 48 else "pred_excludes", "BDS30"], tag="thr-bds30")
+    for src in range(16):
+        bits = gen44(rng)
+        spec.put(bits, 0, 4, src)
+        m = frame(rng, bits, df=21)
+        yield dict(op="is44 " + m, real=(ISFN["BDS44"][1], [m]), expect=str(src <= 4), tag="thr-src44")
+    for w in list(range(240, 262)) + [511]:
+        bits = gen44(rng)
+        spec.put(bits, 4, 1, 1)
+        spec.put(bits, 5, 9, w)
+        m = frame(rng, bits, df=21)
+        yield dict(op="is44 " + m, real=(ISFN["BDS44"][1], [m]), expect=str(w <= 250), tag="thr-wind44")
+    for n in list(range(-330, -310)) + list(range(230, 250)) + [-512, 511, 0, 1, -1]:
+        bits = gen45(rng)
+        spec.put(bits, 15, 1, 1)
+        spec.put(bits, 16, 1, 1 if n < 0 else 0)
+        spec.put(bits, 17, 9, n & 0x1FF)
+        m = frame(rng, bits, df=21)
+        yield dict(op="is45 " + m, real=(ISFN["BDS45"][1], [m]), expect=str(-320 <= n <= 240), tag="thr-temp45")
+        yield dict(op="infer1 " + m, real=(I, [m, True]), pred=["pred_contains" if -320 <= n <= 240 else "pred_excludes", "BDS45"], tag="thr-temp45")
+    # BDS 4,4 temperature: the decoder tries two readings (0.25 / 0.125 C per bit, an ambiguity of Doc 9871) - every raw value,
+    # model against code (no documented expectation outside [-80, 60] in the 0.25 C reading, which must be accepted)
+    for n in range(-1024, 1024, 1 if ctx.thorough else 3):
+        bits = gen44(rng)
+        spec.put(bits, 23, 1, 1 if n < 0 else 0)
+        spec.put(bits, 24, 10, n & 0x3FF)
+        m = frame(rng, bits, df=21)
+        if -320 <= n <= 240:
+            yield dict(op="is44 " + m, real=(ISFN["BDS44"][1], [m]), expect="True", tag="thr-temp44")
+        else:
+            yield dict(op="is44 " + m, real=(ISFN["BDS44"][1], [m]), tag="thr-temp44", trivial=True)
+    for n in (-641, -640, -639, 479, 480, 481):
+        bits = gen44(rng)
+        spec.put(bits, 23, 1, 1 if n < 0 else 0)
+        spec.put(bits, 24, 10, n & 0x3FF)
+        m = frame(rng, bits, df=21)
+        yield dict(op="is44 " + m, real=(ISFN["BDS44"][1], [m]), tag="thr-temp44", trivial=True)
     # --- DF20 altitude cross-check (float): model vs real, away from the 20 kt threshold
     for _ in range(ctx.n(500, 10000)):
         ias, mach = rng.randrange(100, 450), rng.randrange(50, 250)
@@ -304,6 +489,11 @@ def cases(ctx):
         m = frame(rng, bits, df=21)
         yield dict(op=None, real=("h:props.C12.p_is50or60", [m, rng.uniform(100, 550), rng.uniform(0, 360), rng.uniform(0, 42000)]),
                    expect="ok", tag="is50or60")
+    for _ in range(ctx.n(1500, 15000)):
+        alt = rng.choice([rng.uniform(0, 42000), 35000.0, 10000.0])
+        m = frame(rng, gen5060(rng, alt), df=rng.choice([20, 21]))
+        yield dict(op=None, real=("h:props.C12.p_is50or60", [m, rng.uniform(60, 550), rng.uniform(0, 360), alt]),
+                   expect="ok", tag="is50or60-both")
     # --- random payloads: infer consistent with the rules, mrar both
     for _ in range(ctx.n(4000, 50000)):
         bits = spec.background(rng, 56, "rand")
